@@ -112,6 +112,20 @@ def run(ctx):
         ctx.violation('wht:not-sylvester', f'walsh_hadamard_transform(len {n}, small_n={small}) is not multiplication by the Sylvester matrix; {detail}', replay={'cfg': cfg})
       elif not ok2:
         ctx.violation('wht:twice', f'applying the transform twice does not multiply by {n} (small_n={small})', replay={'cfg': cfg})
+  # "all real input vectors": integer vectors are transformed exactly (entries and partial sums beyond 2^24, where float32
+  # stops being exact), and the result keeps the input dtype
+  for n_i, small_i in ((4, None), (8, 2), (16, 4), (64, None)):
+    H_i = sylvester(n_i).astype(np.int64)
+    xi = np.array([16777217, 0, 3, 5, -33554433, 7, 1, 2] * (n_i // 4), np.int64)[:n_i]
+    n_runs += 1
+    ctx.case(key=('wht-int', n_i, small_i), nontrivial=True)
+    try:
+      gi = wh.walsh_hadamard_transform(jnp.array(xi, jnp.int32)) if small_i is None else wh.walsh_hadamard_transform(jnp.array(xi, jnp.int32), small_i)
+      if not np.array_equal(np.asarray(gi, np.int64), H_i @ xi):
+        ctx.violation('wht:not-sylvester:int32', f'walsh_hadamard_transform of the int32 vector {xi.tolist()[:8]}... (len {n_i}, small_n={small_i}) is {np.asarray(gi).tolist()[:6]}..., '
+                      f'the Sylvester product is {(H_i @ xi).tolist()[:6]}...', replay={'n': n_i, 'small_n': small_i})
+    except Exception as ex:  # pylint: disable=broad-except
+      ctx.violation(f'wht:exception:{type(ex).__name__}', f'int32 input, len {n_i}, small_n={small_i}: {type(ex).__name__}: {str(ex)[:160]}', replay={'n': n_i})
   ctx.trace_ok(n_runs)
   ctx.leg('R', transform_cases=n_runs, tlc_columns=len(cols))
   ctx.sample({'n': 8, 'j': 3, 'tlc_column': cols.get((8, 3))})
@@ -161,14 +175,23 @@ def run(ctx):
   # leaf-wise on trees
   leaf = lambda *shape: jnp.array(nprng.randn(*shape), jnp.float32)
   # every tree structure: nested dicts, a bare array, tuples / lists, a single-leaf container
-  trees = [{'w': leaf(3, 5), 'b': {'c': leaf(7), 'd': leaf(1)}}, leaf(6), (leaf(5), leaf(2, 2)), [leaf(3)], {'only': leaf(9)}, [leaf(4), {'x': leaf(3), 'y': (leaf(2),)}]]
-  for kseed in range(12):
+  import collections  # pylint: disable=g-import-not-at-top
+  Dense = collections.namedtuple('Dense', 'w b')
+  trees = [{'w': leaf(3, 5), 'b': {'c': leaf(7), 'd': leaf(1)}}, leaf(6), (leaf(5), leaf(2, 2)), [leaf(3)], {'only': leaf(9)}, [leaf(4), {'x': leaf(3), 'y': (leaf(2),)}],
+           [(leaf(3, 2), leaf(2)), (leaf(2, 2), leaf(2))], {'dense': Dense(leaf(4), leaf(3)), 'none': None}, (leaf(2), leaf(3), leaf(4))]
+  for kseed in range(18):
     tree = trees[kseed % len(trees)]
     key = jax.random.PRNGKey(100 + kseed)
-    rt, shapes_t = wh.structured_rotation_pytree(tree, key)
-    bk = wh.inverse_structured_rotation_pytree(rt, key, shapes_t)
     nrot += 1
     ctx.case(key=('tree', kseed), nontrivial=True)
+    try:
+      rt, shapes_t = wh.structured_rotation_pytree(tree, key)
+      bk = wh.inverse_structured_rotation_pytree(rt, key, shapes_t)
+      if jax.tree_util.tree_structure(bk) != jax.tree_util.tree_structure(tree) or jax.tree_util.tree_structure(rt) != jax.tree_util.tree_structure(tree):
+        raise ValueError(f'tree structure changed: {jax.tree_util.tree_structure(rt)}')
+    except Exception as ex:  # pylint: disable=broad-except
+      ctx.violation('rotation:tree-exception', f'{type(ex).__name__}: {str(ex)[:160]} rotating / un-rotating a tree of structure {jax.tree_util.tree_structure(tree)}', replay={'key': 100 + kseed})
+      continue
     for (p1, l1), (p2, l2), (p3, l3) in zip(jax.tree_util.tree_leaves_with_path(tree), jax.tree_util.tree_leaves_with_path(bk), jax.tree_util.tree_leaves_with_path(rt)):
       if np.asarray(l1).shape != np.asarray(l2).shape or not np.allclose(np.asarray(l1), np.asarray(l2), rtol=2e-5, atol=2e-6):
         ctx.violation('rotation:tree-inverse', f'leaf {p1}: inverse rotation of the tree does not restore the leaf (key {100 + kseed})', replay={'key': 100 + kseed})
